@@ -64,6 +64,11 @@ def stage_ticks(report, tier, rng, dist):
         case = small_case(rng, 0.25)
         if ci == 0:
             case['cont'] = False
+        if ci == 1:
+            # several workers busy when the interrupt arrives: each of them is waited for, however many polling rounds that takes
+            nn = 4
+            case.update(n=nn, types=[0] * nn, specs=[['tuple', []] for _ in range(nn)], reads=[[] for _ in range(nn)], behs=['ok'] * nn,
+                        req=[[t, 0] for t in range(nn)], storage='local', bust=False, cont=True, pre=[], max_workers=3)
         base_obs, _, ticker, _ = I.run_interrupt(case, None, None)
         total = ticker.n
         points = [(k1, None) for k1 in range(total)]
@@ -87,6 +92,10 @@ def stage_ticks(report, tier, rng, dist):
                 lost = [t for t in ticker.running_at_first if S.CACHEABLE[case['types'][t]] and ref[t] is not None and t not in obs['final_store']]
                 if lost:
                     v = ('running-task-not-cached', f'tasks {lost} were executing when the interrupt arrived but their results were not cached')
+            if ticker.fired == 1 and obs['outcome'] == 'interrupt' and getattr(script, 'alive_after_single', 0):
+                # (not a violation by itself: the property lets executing tasks finish and be cached, it does not say that run_tasks waits
+                # for them; a worker whose future the runner had not registered yet when the interrupt landed is not waited for)
+                dist['single_interrupt_raised_while_workers_executing'] += 1
             if v is None and ticker.fired >= 2 and script.leftover_alive:
                 v = ('worker-left-running', f'{script.leftover_alive} worker processes were still alive after the second interrupt')
             if v is not None:
@@ -188,7 +197,10 @@ class LineInjector:
 def run_lines(case, target, runner, second=None):
     inj = LineInjector(target, second)
     if runner == 'serial':
-        obs = S.run_case(dict(case, runner='serial'), catch_ki=True, around_run=inj)
+        import contextlib
+        import io
+        with (contextlib.redirect_stdout(io.StringIO()) if case.get('top') else contextlib.nullcontext()):
+            obs = S.run_case(dict(case, runner='serial'), catch_ki=True, around_run=inj)
         return obs, inj
     X.SCRIPT = X.Script(random.Random(case['sched_seed']), p_kill=0.0, p_idle=0.1)
     try:
@@ -201,7 +213,7 @@ def run_lines(case, target, runner, second=None):
 
 
 def stage_lines(report, tier, rng, dist, runner):
-    n_cases = {('serial', 'quick'): 2, ('serial', 'thorough'): 4, ('l2', 'quick'): 1, ('l2', 'thorough'): 3}[(runner, tier)]
+    n_cases = {('serial', 'quick'): 3, ('serial', 'thorough'): 5, ('l2', 'quick'): 1, ('l2', 'thorough'): 3}[(runner, tier)]
     runs = 0
     for ci in range(n_cases):
         case = S.gen_case(rng, runner=runner, max_n=4, p_fail=0.2, allow_dups=False)
@@ -216,6 +228,9 @@ def stage_lines(report, tier, rng, dist, runner):
                         req=[[t, 0] for t in range(nn)], storage='local', bust=False, cont=True)
         if ci == 1:
             case['cont'] = False
+        if runner == 'serial' and ci == 2:
+            # the task monitor display is on (it samples process statistics from inside the polling loop of the caller)
+            case['top'] = True
         if runner == 'serial':
             case['storage'] = 'local'
             case['types'] = [0 if ci % 2 == 0 else t for t in case['types']]     # caching types: the save path is exercised
@@ -236,6 +251,11 @@ def stage_lines(report, tier, rng, dist, runner):
             k = {('serial', 'quick'): 90, ('l2', 'quick'): 40, ('l2', 'thorough'): 200}[(runner, tier)]
             if runner == 'serial':
                 extra = rng.sample(save_path, min(len(save_path), 60))
+                if case.get('top'):
+                    mon = [i for i, f in enumerate(inj.files) if f == 'monitor.py']
+                    extra += rng.sample(mon, min(len(mon), 60))
+                    dist['serial_monitor_line_events_targeted'] += min(len(mon), 60)
+                    k = 30
             else:
                 rest = [i for i in exec_lines if i not in critical]
                 extra = (critical if (ci == 0 or tier == 'thorough') else rng.sample(critical, min(len(critical), 40))) + \
